@@ -240,6 +240,20 @@ func optsField(c ssa.CallInstruction, name string) (ssa.Value, *ssa.Alloc) {
 		}
 	}
 	if al == nil {
+		// built by a constructor of another package, possibly with functional options:
+		// cache.NewOpts(store, cache.WithOwner(owner, prio))
+		for _, a := range c.Common().Args {
+			if core.TypeKey(a.Type()) != "cache.Opts" {
+				continue
+			}
+			for _, o := range append(core.Origins(a), a) {
+				if cc, ok := o.(*ssa.Call); ok {
+					if v := optsFieldViaConstructor(cc, name, 0); v != nil {
+						return v, nil
+					}
+				}
+			}
+		}
 		return nil, nil
 	}
 	for _, ref := range *al.Referrers() {
@@ -318,6 +332,139 @@ func entityKeys(v ssa.Value) map[string]bool {
 			continue
 		}
 		add(cur)
+	}
+	return out
+}
+
+// optsFieldViaConstructor: call cc of a repository function that builds and returns a cache.Opts; the value that ends
+// up in field `name`, expressed in terms of the values at the call site: a parameter of the constructor stored into
+// the field, or - functional options - a field set by the closure that one of the variadic option arguments
+// (cache.WithOwner(owner, prio)) returns, with that option constructor's parameters bound to its arguments.
+func optsFieldViaConstructor(cc *ssa.Call, name string, depth int) ssa.Value {
+	g := cc.Call.StaticCallee()
+	if g == nil || g.Blocks == nil || depth > 2 {
+		return nil
+	}
+	argOf := func(fn *ssa.Function, call *ssa.Call, v ssa.Value) ssa.Value {
+		if p, ok := v.(*ssa.Parameter); ok && p.Parent() == fn {
+			for i, q := range fn.Params {
+				if q == p && i < len(call.Call.Args) {
+					return call.Call.Args[i]
+				}
+			}
+		}
+		return v
+	}
+	var found ssa.Value
+	core.WithoutInlining(func() {
+		// 1. stored by the constructor itself
+		for _, b := range g.Blocks {
+			for _, in := range b.Instrs {
+				st, ok := in.(*ssa.Store)
+				if !ok {
+					continue
+				}
+				if fa, ok := st.Addr.(*ssa.FieldAddr); ok && core.FieldKey(fa) == "cache.Opts."+name {
+					found = argOf(g, cc, st.Val)
+				}
+			}
+		}
+		if found != nil {
+			return
+		}
+		// 2. set by one of the options handed in
+		if !g.Signature.Variadic() || len(cc.Call.Args) == 0 {
+			return
+		}
+		variadic := cc.Call.Args[len(cc.Call.Args)-1]
+		for _, el := range sliceLiteralElems(variadic) {
+			oc, ok := el.(*ssa.Call)
+			if !ok {
+				continue
+			}
+			og := oc.Call.StaticCallee()
+			if og == nil || og.Blocks == nil {
+				continue
+			}
+			for _, ret := range core.Returns(og) {
+				for _, rv := range core.ReturnValues(ret) {
+					if ct, isCT := rv.(*ssa.ChangeType); isCT {
+						rv = ct.X // func literal converted to the named option type
+					}
+					mc, ok := rv.(*ssa.MakeClosure)
+					if !ok {
+						continue
+					}
+					k, _ := mc.Fn.(*ssa.Function)
+					if k == nil {
+						continue
+					}
+					for _, b := range k.Blocks {
+						for _, in := range b.Instrs {
+							st, ok := in.(*ssa.Store)
+							if !ok {
+								continue
+							}
+							fa, ok := st.Addr.(*ssa.FieldAddr)
+							if !ok || core.FieldKey(fa) != "cache.Opts."+name {
+								continue
+							}
+							val := st.Val
+							// a captured variable of the closure: what the option constructor bound it to
+							for _, o := range append(core.Origins(val), val) {
+								if fv, ok := o.(*ssa.FreeVar); ok {
+									for i, x := range k.FreeVars {
+										if x == fv && i < len(mc.Bindings) {
+											val = mc.Bindings[i]
+										}
+									}
+								}
+								if u, ok := o.(*ssa.UnOp); ok {
+									if fv, ok := u.X.(*ssa.FreeVar); ok {
+										for i, x := range k.FreeVars {
+											if x == fv && i < len(mc.Bindings) {
+												// captured by reference: the value stored into the captured variable
+												if al, ok := mc.Bindings[i].(*ssa.Alloc); ok {
+													for _, ref := range *al.Referrers() {
+														if s2, ok := ref.(*ssa.Store); ok && s2.Addr == ssa.Value(al) {
+															val = s2.Val
+														}
+													}
+												}
+											}
+										}
+									}
+								}
+							}
+							found = argOf(og, oc, val)
+						}
+					}
+				}
+			}
+		}
+	})
+	return found
+}
+
+// sliceLiteralElems: the elements of a slice built in place (the variadic argument list of a call).
+func sliceLiteralElems(v ssa.Value) []ssa.Value {
+	sl, ok := v.(*ssa.Slice)
+	if !ok {
+		return nil
+	}
+	al, ok := sl.X.(*ssa.Alloc)
+	if !ok {
+		return nil
+	}
+	var out []ssa.Value
+	for _, ref := range *al.Referrers() {
+		if ia, ok := ref.(*ssa.IndexAddr); ok {
+			for _, r2 := range *ia.Referrers() {
+				if st, ok := r2.(*ssa.Store); ok && st.Addr == ssa.Value(ia) {
+					out = append(out, st.Val)
+				}
+			}
+		}
 	}
 	return out
 }
